@@ -24,6 +24,9 @@ Profiles ==
     \cup {S(TRUE, <<B("busy", 30), B("answer", l)>>, <<B("busy", 30), B("answer", l)>>) : l \in Lats}
     \cup {S(TRUE, <<B("busy", 30)>>, <<B("busy", 30)>>)}
 
+\* the same without the long latency
+Few == {p \in Profiles : \A x \in {"udp", "tcp"} : \A i \in 1..Len(Script(p, x)) : Script(p, x)[i].lat # 180}
+
 C(ta, n, st, srvs) == [T |-> 300, ta |-> ta, nconc |-> n, strategy |-> st, servers |-> srvs]
 
 \* two servers, every strategy and degree of parallelism, stock and stricter per-attempt timeout
@@ -33,9 +36,10 @@ MC_Two ==
 \* three servers in the configured order (every assignment, so every order is covered)
 MC_Three ==
     {C(300, n, "user", <<a, b, c>>) : n \in {1, 2}, a \in Profiles, b \in Profiles, c \in Profiles}
+\* sharing: two servers, callers arriving at any point of the timeline or after completion
+MC_Shared == {C(300, n, st, <<a, b>>) : n \in {1, 2}, st \in {"user", "rr"}, a \in Few, b \in Few}
 \* one and four servers
 MC_One  == {C(ta, 1, "user", <<a>>) : ta \in {300, 120}, a \in Profiles}
-Few == {p \in Profiles : p.udp # <<>> /\ (p.udp[1].lat = 30 \/ p.udp[1].k = "timeout")}
 MC_Four == {C(300, 2, "user", <<a, b, c, d>>) : a \in Few, b \in Few, c \in Few, d \in Few}
 
 \* the counterexample configurations of the two "asis" rules
